@@ -46,6 +46,22 @@ class GenericBasis:
         return self.ctx.ufun(f"basis|{self.name}", [x])
 
 
+class FloatBasis:
+    """basis function of the float re-runs: the same pseudo-values the uninterpreted function basis|p<j> takes in the symbolic run"""
+
+    def __init__(self, j):
+        self.j, self.name = j, f"p{j}"
+        self.borders_x = [0.01, 1.0]
+        self.areas = [Area(0.01, 1.0)]
+        self.areas_representation = ("areas-token", self.name)
+
+    def is_below_x(self, x):
+        return self.borders_x[-1] <= x
+
+    def __call__(self, x):
+        return float(real.ufun_witness(f"basis|{self.name}", [float(x)]))
+
+
 def run_convolution(ctx, shape, mode_log, n_areas):
     """One symbolic execution of the real conv.convolution; returns everything needed for the claims."""
     from yadism.coefficient_functions.partonic_channel import RSL
@@ -203,7 +219,7 @@ def run_assembly(ctx, cell, P, x, Q2, m2c, tag, cvals=None):
         basis = list(interp)
     else:
         nodes = [0.01, 1.0]
-        basis = [GenericBasis(ctx, [0.01, 1.0], False, name=f"p{j}") for j in range(2)] if ctx is not None else [0, 1]
+        basis = [GenericBasis(ctx, [0.01, 1.0], False, name=f"p{j}") for j in range(2)] if ctx is not None else [FloatBasis(j) for j in range(2)]
         interp = cm.StubInterpolator(nodes, basis)
     cc = cm.make_coupling(P, cell["process"], cell["pid"])
     cfg = cm.make_configs(cc, pto=cell["pto"], pto_evol=min(cell["pto"], 2), scheme=cell["scheme"], nf_ff=cell["nf"],
